@@ -187,7 +187,7 @@ func newSchedGen(r *RNG, tier string, profile string) *schedGen {
 			sched = append(sched, strconv.Itoa(t))
 		}
 	}
-	if profile != "c12" && r.Bool(60) {
+	if r.Bool(60) {
 		// every lock acquisition of the index, primary, freelist and store is a scheduling point too
 		g.ops = append(g.ops, mkOp("srun", "sched", strings.Join(sched, ","), "max", "3000", "locks", "1"))
 	} else {
